@@ -316,6 +316,16 @@ Definition api_agree
   Bool.eqb oraised (negb (is_ok r))
   && list_eqb Pos.eqb oins ins' && list_eqb Pos.eqb oinits inits' && list_eqb vobs_eqb ovals vals'.
 
+Definition api_agree_fixed
+  (case : list positive * list positive * list (positive * value) * bool
+          * (bool * list positive * list positive * list (option Z * option Z * option Z))) : bool :=
+  let '(ins, inits, tbl, fr, (oraised, oins, oinits, ovals)) := case in
+  let g := {| g_inputs := ins; g_inits := inits; g_vals := mk_vals tbl |} in
+  let '(g', r) := call_onnx_api_fixed unit unit lazy_serialize (fun _ => if fr then Raise RuntimeError else Ok tt) g in
+  let '(ins', inits', vals') := gst_obs (map fst tbl) g' in
+  Bool.eqb oraised (negb (is_ok r))
+  && list_eqb Pos.eqb oins ins' && list_eqb Pos.eqb oinits inits' && list_eqb vobs_eqb ovals vals'.
+
 (* ====================================================================== C. passes and their flags *)
 
 (* ---- ClearMetadataAndDocStringPass.  A model is the list of graph-likes the pass visits (main graph and
@@ -342,6 +352,16 @@ Definition cgraph_eqb (a b : cgraph) : bool :=
 Definition clear_agree (case : list cgraph * (list cgraph * bool)) : bool :=
   let '(m, (m', f)) := case in
   let '(pm, pf) := clear_pass m in list_eqb cgraph_eqb pm m' && Bool.eqb pf f.
+
+(* repaired flag (proposed_fixes/C14-clear-docstring-flag.diff): a cleared node doc string counts *)
+Definition clear_graph_fixed (g : cgraph) : cgraph * bool :=
+  (fst (clear_graph g),
+   match cg_nodes g with [] => false | _ => existsb (fun n => fst n || snd n) (cg_nodes g) || cg_meta g || cg_doc g end).
+Definition clear_pass_fixed (m : list cgraph) : list cgraph * bool :=
+  (map (fun g => fst (clear_graph_fixed g)) m, existsb (fun g => snd (clear_graph_fixed g)) m).
+Definition clear_agree_fixed (case : list cgraph * (list cgraph * bool)) : bool :=
+  let '(m, (m', f)) := case in
+  let '(pm, pf) := clear_pass_fixed m in list_eqb cgraph_eqb pm m' && Bool.eqb pf f.
 
 (* ---- RemoveUnusedNodesPass on flat graphs (no subgraphs, no opset-dependent optional-output trimming) *)
 Record dnode : Type := { d_id : positive; d_ins : list (option positive); d_outs : list positive }.
@@ -379,6 +399,26 @@ Definition dce (g : dgraph) : dgraph * bool :=
   let c2 := (c + (length (d_inits g) - length inits))%nat in
   ({| d_nodes := ns; d_outputs := d_outputs g; d_inputs := d_inputs g; d_inits := inits |}, negb (Nat.eqb c2 0)).
 
+(* repaired count (proposed_fixes/C14-dce-count-trims.diff): trimming a kept node counts *)
+Definition ins_eqb (a b : list (option positive)) : bool := list_eqb (option_eqb Pos.eqb) a b.
+Fixpoint sweep_fixed (outs : list positive) (before : list dnode) (l : list dnode) : list dnode * nat :=
+  match l with
+  | [] => ([], O)
+  | n :: rest =>
+      let '(rest', c) := sweep_fixed outs (before ++ [n]) rest in
+      let others := before ++ n :: rest' in
+      if forallb (fun o => negb (pmem o outs) && negb (used_in o others)) (d_outs n)
+      then (rest', S c)
+      else (trim_node n :: rest', if ins_eqb (trim (d_ins n)) (d_ins n) then c else S c)
+  end.
+
+Definition dce_fixed (g : dgraph) : dgraph * bool :=
+  let '(ns, c) := sweep_fixed (d_outputs g) [] (d_nodes g) in
+  let keep := fun v => used_in v ns || pmem v (d_outputs g) || pmem v (d_inputs g) in
+  let inits := filter keep (d_inits g) in
+  let c2 := (c + (length (d_inits g) - length inits))%nat in
+  ({| d_nodes := ns; d_outputs := d_outputs g; d_inputs := d_inputs g; d_inits := inits |}, negb (Nat.eqb c2 0)).
+
 Definition dce_size (g : dgraph) : nat := (length (d_nodes g) + length (d_inits g))%nat.
 
 Definition oppos_eqb := option_eqb Pos.eqb.
@@ -390,6 +430,9 @@ Definition dgraph_eqb (a b : dgraph) : bool :=
 
 Definition dce_agree (case : dgraph * (dgraph * bool)) : bool :=
   let '(g, (g', f)) := case in let '(pg, pf) := dce g in dgraph_eqb pg g' && Bool.eqb pf f.
+
+Definition dce_agree_fixed (case : dgraph * (dgraph * bool)) : bool :=
+  let '(g, (g', f)) := case in let '(pg, pf) := dce_fixed g in dgraph_eqb pg g' && Bool.eqb pf f.
 
 (* ---- TopologicalSortPass: the flag is computed from the top-level node lists of the main graph and
    the functions only; Graph.sort() (C12) also reorders every subgraph.  sort is abstract. *)
@@ -408,10 +451,24 @@ Section Topo.
     (m', first_diff (t_main m ++ concat (t_funcs m)) (t_main m' ++ concat (t_funcs m'))).
 End Topo.
 
+(* repaired flag (proposed_fixes/C14-toposort-flag.diff): every node list, subgraphs included, is compared *)
+Definition lists_eqb (a b : list (list positive)) : bool := list_eqb (list_eqb Pos.eqb) a b.
+Definition tmodel_eqb (a b : tmodel) : bool :=
+  list_eqb Pos.eqb (t_main a) (t_main b) && lists_eqb (t_funcs a) (t_funcs b) && lists_eqb (t_subs a) (t_subs b).
+Definition topo_pass_fixed (sort : list positive -> list positive) (m : tmodel) : tmodel * bool :=
+  let m' := fst (topo_pass sort m) in (m', negb (tmodel_eqb m m')).
+
 (* correspondence: the observed sorted lists are given; only the flag computation is predicted *)
-Definition topo_agree (case : list positive * list (list positive) * list positive * list (list positive) * bool) : bool :=
-  let '(main, funcs, smain, sfuncs, f) := case in
+Definition topo_case : Type :=
+  list positive * list (list positive) * list (list positive)
+  * (list positive * list (list positive) * list (list positive)) * bool.
+Definition topo_agree (case : topo_case) : bool :=
+  let '(main, funcs, subs, (smain, sfuncs, ssubs), f) := case in
   Bool.eqb f (first_diff (main ++ concat funcs) (smain ++ concat sfuncs)).
+Definition topo_agree_fixed (case : topo_case) : bool :=
+  let '(main, funcs, subs, (smain, sfuncs, ssubs), f) := case in
+  Bool.eqb f (negb (tmodel_eqb {| t_main := main; t_funcs := funcs; t_subs := subs |}
+                               {| t_main := smain; t_funcs := sfuncs; t_subs := ssubs |})).
 
 (* ---- AddInitializersToInputsPass / RemoveInitializersFromInputsPass, per graph (inputs, initializers) *)
 Definition add_inits (g : list positive * list positive) : (list positive * list positive) * nat :=
